@@ -131,20 +131,24 @@ def parse_vspec(path):
         if kind == "at":
             tgt.text.append(raw.rstrip())
             continue
+        lst = {"requires": "requires", "ensures": "ensures", "decreases": "decreases", "invariant": "invariants"}.get(kind)
+        if kind == "returns":
+            tgt.returns_clause = line
+            continue
+        cur_list = getattr(tgt, lst)
+        ind = len(raw) - len(raw.lstrip())
+        if cur_list and getattr(cur_list[-1], "open", False) and ind > cur_list[-1].indent:
+            # continuation of a clause that did not end with ','
+            cur_list[-1].text += "\n" + line
+            cur_list[-1].open = not line.endswith(",")
+            continue
         m = LABEL_RE.match(line)
         label = m.group(1) if m else ""
         text = line[m.end():] if m else line
         cl = Clause(label, text)
-        if kind == "requires":
-            tgt.requires.append(cl)
-        elif kind == "returns":
-            tgt.returns_clause = text
-        elif kind == "ensures":
-            tgt.ensures.append(cl)
-        elif kind == "decreases":
-            tgt.decreases.append(cl)
-        elif kind == "invariant":
-            tgt.invariants.append(cl)
+        cl.open = not line.endswith(",")
+        cl.indent = ind
+        cur_list.append(cl)
     return specs
 
 
@@ -423,8 +427,9 @@ class Unit:
             for c in clauses:
                 line_no = len(g.lines) + 1
                 t = c.text if c.text.rstrip().endswith(",") else c.text + ","
-                g.lines.append("        " + t)
-                g.origin.append(dict(kind="clause", label=c.label, fn=fnkey, clause=kindname, text=c.text))
+                for tl in t.split("\n"):
+                    g.lines.append("        " + tl)
+                    g.origin.append(dict(kind="clause", label=c.label, fn=fnkey, clause=kindname, text=c.text))
                 if c.label and not smoke:
                     nlab += 1
                     if c.label in self.labels and self.labels[c.label]["fn"] != fnkey:
@@ -462,8 +467,9 @@ class Unit:
                     for c in cls:
                         line_no = len(g.lines) + 1
                         t = c.text if c.text.rstrip().endswith(",") else c.text + ","
-                        g.lines.append("            " + t)
-                        g.origin.append(dict(kind="clause", label=c.label, fn=fnkey, clause=f"loop{n}.{kw}", text=c.text))
+                        for tl in t.split("\n"):
+                            g.lines.append("            " + tl)
+                            g.origin.append(dict(kind="clause", label=c.label, fn=fnkey, clause=f"loop{n}.{kw}", text=c.text))
                         if c.label and not smoke:
                             nlab += 1
                             self.labels[c.label] = dict(fn=fnkey, kind=f"loop{n}.{kw}", line=line_no, text=c.text)
